@@ -68,6 +68,8 @@ def gen_cases(tier, seed):
     cases.append({"kind": "shard", "dseed": 3, "directed_cfg": 4})
     cases.append({"kind": "shard", "dseed": 4, "directed_cfg": 5})
     cases.append({"kind": "legacy", "dseed": 5, "directed_cfg": 7})
+    # chunks of 2 MiB read through Range requests
+    cases.append({"kind": "shard", "dseed": 6, "directed_cfg": 9})
     return cases
 
 
@@ -382,6 +384,8 @@ def run_case(case):
             obs["requests"][k] = obs["requests"].get(k, 0) + 1
             if rng:
                 obs["range_requests"] += 1
+        obs["large_range_replies_delayed"] = obs.get("large_range_replies_delayed", 0) + \
+            getattr(srv.httpd, "big_range_leaders", 0)
         if all_sharded and not v and not any(rng for _, _, rng, _ in srv.log):
             v.append({"kind": "harness-no-range-requests", "detail": ctx})
     finally:
@@ -408,4 +412,5 @@ def gates(obs, tier):
         and obs.get("faults_injected_by_server", 0) > 100,
         "chunk_comparisons": obs.get("chunk_comparisons", 0) > 1000,
         "refused_connections": obs.get("refused_connection_cases", 0) > 10,
+        "range_reads_of_a_megabyte_and_more": obs.get("large_range_replies_delayed", 0) > 3,
     }
